@@ -6,6 +6,7 @@
 //!   @loop <k>                    raw text placed before the `{` of the k-th loop (source order)
 //!   @closure <k>                 raw header replacing `|args| [-> T]` of the k-th closure
 //!   @hint after|before "<needle>"  raw proof text next to the unique statement starting with needle
+//!   @attr <verifier attribute>   proof-mode attribute placed before the function (allow-list: loop_isolation(false))
 //!   @param <from> => <to>        retype a parameter textually inside the signature (logged)
 //! `//# ob: <name>` lines inside clause text name the obligation that follows.
 
@@ -24,6 +25,8 @@ pub struct FnClauses {
     pub closures: BTreeMap<usize, String>,
     pub hints: Vec<(bool, String, String)>,
     pub no_canary: bool,
+    /// `@attr`: verifier attributes that change how the proof is organised, never what is assumed (allow-listed)
+    pub attrs: Vec<String>,
     /// `@loops N`: the function has N loops in all (some verify without a loop contract); default: the number of `@loop` entries
     pub expected_loops: Option<usize>,
 }
@@ -69,6 +72,14 @@ pub fn parse(text: &str) -> Result<BTreeMap<String, FnClauses>, String> {
             cur = match d {
                 "@ret" => {
                     f.ret = Some(arg.to_string());
+                    Cur::None
+                }
+                "@attr" => {
+                    const ALLOWED: [&str; 1] = ["#[verifier::loop_isolation(false)]"];
+                    if !ALLOWED.contains(&arg) {
+                        return Err(format!("line {}: @attr {arg} is not on the allow-list {ALLOWED:?}", ln + 1));
+                    }
+                    f.attrs.push(arg.to_string());
                     Cur::None
                 }
                 "@no_canary" => {
